@@ -215,9 +215,9 @@ type linEval struct {
 var linTransparent = map[string]bool{
 	"cosmossdk.io/math.NewInt": true, "cosmossdk.io/math.NewIntFromUint64": true, "cosmossdk.io/math.NewIntFromBigInt": true,
 	"cosmossdk.io/math.LegacyNewDec": true, "cosmossdk.io/math.LegacyNewDecFromInt": true, "cosmossdk.io/math.LegacyNewDecFromBigInt": true,
-	"cosmossdk.io/math.NewUint": true,
+	"cosmossdk.io/math.NewUint":           true,
 	"(cosmossdk.io/math.Int).ToLegacyDec": true, "(cosmossdk.io/math.Int).Int64": true, "(cosmossdk.io/math.Int).Uint64": true, "(cosmossdk.io/math.Int).BigInt": true,
-	"(cosmossdk.io/math.LegacyDec).BigInt": true,
+	"(cosmossdk.io/math.LegacyDec).BigInt":      true,
 	"github.com/cosmos/cosmos-sdk/types.NewInt": true, "github.com/cosmos/cosmos-sdk/types.NewIntFromUint64": true,
 	"(*math/big.Int).Int64": true, "(*math/big.Int).Uint64": true,
 }
